@@ -177,7 +177,7 @@ def _havoc_unless(ex, st, keep, tag):
     """arbitrary Python code may run unless `keep`: raw memory and all field heaps become unknown"""
     if ex.known(st, keep):
         return                   # `keep` holds on every execution reaching this point: nothing is havocked
-    st.havoc('after_' + tag, keep=keep)
+    ex.callee_havoc(st, 'after_' + tag, (), keep=keep)
 
 
 @R.model('PyLong_AsUnsignedLongLong',
@@ -310,7 +310,7 @@ def _memset(ex, st, args, n):
 
 def _indirect(ex, st, args, n):
     """call through a function pointer into unknown (Python) code: everything may change"""
-    st.havoc('after_indirect')
+    ex.callee_havoc(st, 'after_indirect', args)
     res = ex.fresh('ret_indirect', B64)
     e = ex.fresh('err_indirect', B64)
     st.err = e
